@@ -48,6 +48,7 @@ func runTrace(pd *propDef, s *scenario, trace []string, judge bool) (st mc.Step,
 		return st, nil, nil
 	}
 	v := &viols{prop: pd.id, scn: s.name, trace: trace}
+	x.evIndex = -1
 	for _, ev := range s.prefix {
 		rp := x.step(ev)
 		if rp.panic != "" {
@@ -68,6 +69,7 @@ func runTrace(pd *propDef, s *scenario, trace []string, judge bool) (st mc.Step,
 			st.ParentKey = pre.key()
 			x.log = nil
 		}
+		x.evIndex = i
 		rp = x.step(ev)
 		if rp.panic != "" {
 			if last {
@@ -209,3 +211,9 @@ func TestVerifC04(t *testing.T) { runProp(t, propC04) }
 var propC12 = &propDef{id: "C12", oracles: []oracleFn{oracleC12}, scenarios: c12Scenarios}
 
 func TestVerifC12(t *testing.T) { runProp(t, propC12) }
+
+var propC13 = &propDef{id: "C13", oracles: []oracleFn{oracleC13}, scenarios: c13Scenarios}
+
+func init() { propC13.post = twinC13(propC13) }
+
+func TestVerifC13(t *testing.T) { runProp(t, propC13) }
